@@ -227,14 +227,27 @@ impl Domain for ClusterDomain {
                 let ts = rt.block_on(n.clock.get_time());
                 let doc = Document::new(id, ts, gen_data(t[3]));
                 self.dists[i].as_ref().expect("dist").put(KS, doc.clone());
-                rt.block_on(async { tokio::time::sleep(Duration::from_millis(1250)).await });
-                let mut got = Vec::new();
-                for (j, nj) in self.nodes.iter().enumerate() {
-                    if let Ok(Some(d)) = rt.block_on(nj.group.storage().get(KS, id)) {
-                        if d.last_updated() == ts {
-                            got.push(j.to_string());
+                // one batching tick (1 s) plus the RPCs; poll until the set of holders has been stable for 300 ms
+                // (and non-empty, or 2.6 s have passed): robust on a loaded machine
+                let mut got: Vec<String> = Vec::new();
+                let mut stable = 0;
+                let mut waited = 1100;
+                rt.block_on(async { tokio::time::sleep(Duration::from_millis(1100)).await });
+                loop {
+                    let mut now = Vec::new();
+                    for (j, nj) in self.nodes.iter().enumerate() {
+                        if let Ok(Some(d)) = rt.block_on(nj.group.storage().get(KS, id)) {
+                            if d.last_updated() == ts {
+                                now.push(j.to_string());
+                            }
                         }
                     }
+                    if now == got { stable += 100 } else { stable = 0; got = now; }
+                    if (stable >= 300 && (!got.is_empty() || waited >= 2600)) || waited >= 4000 {
+                        break;
+                    }
+                    rt.block_on(async { tokio::time::sleep(Duration::from_millis(100)).await });
+                    waited += 100;
                 }
                 self.ops.push((i, Issued::Put(doc)));
                 format!("recv {} ts={}", if got.is_empty() { "-".to_string() } else { got.join(",") }, ts.as_u64())
